@@ -49,11 +49,50 @@ def run(ctx):
     _compiled(ctx, model)
     _digest(ctx, model)
     _memoized_hashes(ctx, model)
+    _eq_not_by_identity_of_parts(ctx, model)
     # a compiled expression is re-compiled from (expression, variables) in the
     # consumer: its positional signature must not depend on the process (set
     # order follows the string-hash seed) -- C13's rule instances on _compile
     from .c13 import _compile as _compile_rules
     _compile_rules(ctx, model)
+
+
+def _eq_not_by_identity_of_parts(ctx, model):
+    """Unpickling rebuilds every object an expression holds: a part that two
+    equal expressions shared by identity in the producer (a memoized Space, an
+    interned table) is a separate copy in the consumer.  An __eq__ that
+    compares a part of self with the same part of the other operand by `is`
+    therefore tells an unpickled value from the locally built one, although
+    their hashes agree.  (`self is other` as a fast path for True is fine.)"""
+    n_eq = 0
+    for c in model.classes.values():
+        for nm in ("__eq__", "__ne__", "is_equal"):
+            mem = c.members.get(nm)
+            if mem is None or mem.kind != "func":
+                continue
+            n_eq += 1
+            for cmp_ in ast.walk(mem.node):
+                if not (isinstance(cmp_, ast.Compare) and len(cmp_.ops) == 1 and
+                        isinstance(cmp_.ops[0], (ast.Is, ast.IsNot))):
+                    continue
+                a, b = cmp_.left, cmp_.comparators[0]
+                if isinstance(a, ast.Attribute) and isinstance(b, ast.Attribute) \
+                        and a.attr == b.attr and isinstance(a.value, ast.Name) \
+                        and isinstance(b.value, ast.Name) and \
+                        a.value.id != b.value.id and \
+                        not a.attr.startswith("__"):
+                    ctx.ob(f"S/pickle/eq-by-identity/{c.name}.{a.attr}", False,
+                           c.module.loc(cmp_),
+                           f"{c.name}.{nm} compares '{a.attr}' of the two "
+                           f"operands by identity ({ast.unparse(cmp_)}): an "
+                           "unpickled value holds its own copy of that object, "
+                           "so it is unequal to the value built from source in "
+                           "the consumer (and is not found in a set that holds "
+                           "it) although the hashes agree")
+    ctx.floor("classes with an equality method", n_eq, 3)
+    ctx.ob("S/pickle/eq-by-identity", True, "pymbolic/",
+           f"{n_eq} equality methods of the package looked at: none compares "
+           "a part of the operands by identity")
 
 
 def numpy_constants_not_normalised(model, mc):
